@@ -283,6 +283,52 @@ fn drive(case: &CyclesCase, d: &mut Driver, max_cycles: usize) -> bool {
     true
 }
 
+/// Cycles driven by ONE Script object deployed again and again ("ADD($a); ADD($b);
+/// BIND($a, $b, x); PUT($b, ..)"), the group read and collected in between, with k
+/// long-lived groups on the top ids. Id-agnostic oracle: every deployment succeeds, adds
+/// exactly the two vertices of the pair to the alive set, the read returns the datum and
+/// takes exactly those two away again — for more cycles than the store has slots.
+fn script_cycles(cfg: Cfg, k: usize, cycles: usize, long_datum: bool) -> (Option<Failure>, u64) {
+    use std::panic::{catch_unwind, AssertUnwindSafe};
+    let fail = |kind: &str, t: usize, d: String| Some(Failure { prop: "C06".into(), kind: kind.into(), step: t, detail: format!("cycle {t} of one re-deployed Script object on Sodg<{}>::empty({}) with {k} long-lived groups: {d}", cfg.n, cfg.cap) });
+    let mut g = crate::graph::new_graph(cfg.n, cfg.cap);
+    for i in 0..k {
+        let (x, y) = (cfg.cap - 1 - 2 * i, cfg.cap - 2 - 2 * i);
+        g.add(x);
+        g.add(y);
+        g.bind(x, y, Lab::Greek('ρ').direct());
+        g.put(y, &crate::graph::hex_of(&[i as u8; 10]));
+    }
+    let datum: Vec<u8> = if long_datum { vec![0xAB; 11] } else { vec![0xAB] };
+    let text = format!("ADD($a); ADD($b); BIND($a, $b, x); PUT($b, {});", crate::calls::hexs(&datum));
+    let mut script = sodg::Script::from_str(&text);
+    let base = g.keys();
+    for t in 0..cycles {
+        crate::campaign::touch();
+        match catch_unwind(AssertUnwindSafe(|| g.deploy_obj(&mut script))) {
+            Err(e) => return (fail("script_cycle.panic", t, format!("deploy_to() panicked: {}", crate::interp::panic_text(e))), t as u64),
+            Ok(Err(e)) => return (fail("script_cycle.error", t, format!("deploy_to() failed: {e:#}")), t as u64),
+            Ok(Ok(4)) => {}
+            Ok(Ok(n)) => return (fail("script_cycle.count", t, format!("deploy_to() returned {n} for 4 commands")), t as u64),
+        }
+        let now = g.keys();
+        let fresh: Vec<usize> = now.iter().copied().filter(|v| !base.contains(v)).collect();
+        if fresh.len() != 2 || now.len() != base.len() + 2 {
+            return (fail("script_cycle.alive_set", t, format!("after the deployment keys() = {now:?}, before it {base:?}")), t as u64);
+        }
+        let b = if g.kid(fresh[0], Lab::Greek('x').direct()) == Some(fresh[1]) { fresh[1] } else { fresh[0] };
+        match catch_unwind(AssertUnwindSafe(|| g.data(b).map(|h| h.to_vec()))) {
+            Ok(Some(d)) if d == datum => {}
+            other => return (fail("script_cycle.data", t, format!("data({b}) = {:?}", other.map_err(crate::interp::panic_text))), t as u64),
+        }
+        let after = g.keys();
+        if after != base {
+            return (fail("script_cycle.not_collected", t, format!("after reading the pair's only datum keys() = {after:?}, expected {base:?}")), t as u64);
+        }
+    }
+    (None, cycles as u64)
+}
+
 impl CyclesEngine {
     fn run_calls(cfg: Cfg, calls: &[Call]) -> Option<Failure> {
         let mut o = make_oracle("C06");
@@ -333,10 +379,22 @@ impl Engine for CyclesEngine {
             }
             out = d.out;
         }
-        let failure = out.failure.clone().map(|mut f| {
+        let mut failure = out.failure.clone().map(|mut f| {
             f.prop = "C06".into();
             f
         });
+        let mut script_payload = None;
+        let mut script_done = 0u64;
+        if failure.is_none() && case.overlap % 4 == 1 {
+            // the same amount of cycles through one re-deployed Script object
+            let cycles = case.cycles.len().min(self.max_cycles).max(cfg.cap + 8);
+            let (f, done) = script_cycles(cfg, k, cycles, case.order_sel & 1 == 1);
+            script_done = done;
+            if f.is_some() {
+                script_payload = Some(json!({"script_cycles": {"cfg": cfg, "long_lived": k, "cycles": cycles, "long_datum": case.order_sel & 1 == 1}}));
+            }
+            failure = f;
+        }
         let mut events: Vec<&'static str> = out.events.iter().copied().filter(|e| e.starts_with("cycle.") || e.starts_with("harness.") || e.starts_with("save+load") || e.starts_with("clone") || e.starts_with("put.over") || e.starts_with("bind.carries") || e.starts_with("put.after")).collect();
         if let Some(c) = out.closed {
             events.push(c);
@@ -357,8 +415,11 @@ impl Engine for CyclesEngine {
         if overlap >= 2 {
             events.push("overlapping_cycles");
         }
+        if script_done > 0 {
+            events.push("cycle.one_script_object_redeployed_more_often_than_there_are_slots");
+        }
         CaseReport {
-            payload: failure.as_ref().map(|_| json!({"cfg": cfg, "calls": out.calls, "rendered": render_calls(cfg, &out.calls)})),
+            payload: script_payload.or_else(|| failure.as_ref().map(|_| json!({"cfg": cfg, "calls": out.calls, "rendered": render_calls(cfg, &out.calls)}))),
             failure,
             nontrivial: out.closed.is_none() && out.groups_died >= 15,
             hash: out.hash64(),
@@ -368,6 +429,7 @@ impl Engine for CyclesEngine {
                 ("groups_died", out.groups_died),
                 ("vertices_collected", out.collections),
                 ("diagnostic_slot_count_mismatch(hook)", slot_mismatch),
+                ("script_object_cycles", script_done),
             ],
             evaluations: 1,
             ..Default::default()
@@ -386,6 +448,9 @@ impl Engine for CyclesEngine {
                "calls": d.out.calls.len(), "groups_died": d.out.groups_died, "history_start": s})
     }
     fn minimise(&self, payload: Value, kind: &str) -> Value {
+        if payload.get("script_cycles").is_some() {
+            return payload;
+        }
         let Ok(cfg) = serde_json::from_value::<Cfg>(payload["cfg"].clone()) else {
             return payload;
         };
@@ -401,6 +466,10 @@ impl Engine for CyclesEngine {
         json!({"cfg": cfg, "calls": min, "rendered": render_calls(cfg, &min)})
     }
     fn replay(&self, payload: &Value) -> Option<Failure> {
+        if let Some(sc) = payload.get("script_cycles") {
+            let cfg: Cfg = serde_json::from_value(sc["cfg"].clone()).ok()?;
+            return script_cycles(cfg, sc["long_lived"].as_u64()? as usize, sc["cycles"].as_u64()? as usize, sc["long_datum"].as_bool()?).0;
+        }
         let cfg: Cfg = serde_json::from_value(payload["cfg"].clone()).ok()?;
         let calls: Vec<Call> = serde_json::from_value(payload["calls"].clone()).ok()?;
         Self::run_calls(cfg, &calls)
